@@ -87,6 +87,7 @@ BHom(e) ==
      /\ a = SecN => BId(A)
      /\ s = <<>> => BId(S)
      /\ e.out.mulA = e.out.A                                          \* ScalarMult(G, a) = ScalarBaseMult(a)
+     /\ "negA" \in DOMAIN e.out => AreOpposite(A, BPt(e.out.negA))     \* ScalarMult(-G, a) = -[a]G
 
 BOnCurve(e) ==
   /\ e.out.panic = ""
